@@ -108,14 +108,18 @@ func (mu *RBMutex) RLock() *RToken {
 		return t
 	}
 	// Slow path.
+	verifYield(46)
 	mu.rw.RLock()
+	verifYield(47)
 	if atomic.LoadInt32(&mu.rbias) == 0 && time.Now().After(mu.inhibitUntil) {
+		verifYield(48)
 		atomic.StoreInt32(&mu.rbias, 1)
 	}
 	return nil
 }
 
 func (mu *RBMutex) fastRlock() *RToken {
+	verifYield(41)
 	if atomic.LoadInt32(&mu.rbias) == 1 {
 		t, ok := rtokenPool.Get().(*RToken)
 		if !ok {
@@ -126,14 +130,18 @@ func (mu *RBMutex) fastRlock() *RToken {
 		for i := 0; i < len(mu.rslots); i++ {
 			slot := t.slot + uint32(i)
 			rslot := &mu.rslots[slot&mu.rmask]
+			verifYield(42 + 100*int(slot&mu.rmask))
 			rslotmu := atomic.LoadInt32(&rslot.mu)
+			verifYield(43)
 			if atomic.CompareAndSwapInt32(&rslot.mu, rslotmu, rslotmu+1) {
+				verifYield(44)
 				if atomic.LoadInt32(&mu.rbias) == 1 {
 					// Hot path succeeded.
 					t.slot = slot
 					return t
 				}
 				// The mutex is no longer reader biased. Roll back.
+				verifYield(45)
 				atomic.AddInt32(&rslot.mu, -1)
 				rtokenPool.Put(t)
 				return nil
@@ -149,6 +157,7 @@ func (mu *RBMutex) fastRlock() *RToken {
 // simultaneous readers. A panic is raised if m is not locked for
 // reading on entry to RUnlock.
 func (mu *RBMutex) RUnlock(t *RToken) {
+	verifYield(49)
 	if t == nil {
 		mu.rw.RUnlock()
 		return
@@ -181,13 +190,18 @@ func (mu *RBMutex) TryLock() bool {
 // Lock locks m for writing. If the lock is already locked for
 // reading or writing, Lock blocks until the lock is available.
 func (mu *RBMutex) Lock() {
+	verifYield(51)
 	mu.rw.Lock()
+	verifYield(52)
 	if atomic.LoadInt32(&mu.rbias) == 1 {
+		verifYield(53)
 		atomic.StoreInt32(&mu.rbias, 0)
 		start := time.Now()
 		for i := 0; i < len(mu.rslots); i++ {
+			verifYield(54 + 100*i)
 			for atomic.LoadInt32(&mu.rslots[i].mu) > 0 {
 				runtime.Gosched()
+				verifYield(54 + 100*i)
 			}
 		}
 		mu.inhibitUntil = time.Now().Add(time.Since(start) * nslowdown)
@@ -201,5 +215,6 @@ func (mu *RBMutex) Lock() {
 // particular goroutine. One goroutine may RLock (Lock) a RBMutex and
 // then arrange for another goroutine to RUnlock (Unlock) it.
 func (mu *RBMutex) Unlock() {
+	verifYield(55)
 	mu.rw.Unlock()
 }
